@@ -2037,7 +2037,7 @@ fn startup_udp<const N: usize>(config: &ServerConfig<SslConfig>, user_manager: &
         };
         let context = udp__Context::new(Mode::Server, Some(user_manager.clone()), &key, &identity_keys);
         let codec = new_codec::<N>(config, context)?;
-        let inbound = UdpSocket::bind(verif_string())?;
+        let inbound = UdpSocket::bind(verif_host_port(&(config.host), config.port))?;
         let (tx, mut rx) = mpsc::channel::<(BytesMut, Address, SocketAddr, udp__Session<N>)>(1024);
         let ttl = Duration::from_secs(300);
         // a 2022 session is named by its client session id; the original AEAD ciphers carry no session id on the wire: there a client is its address
